@@ -31,9 +31,9 @@ Table ==
 PInit ==
   /\ cf \in {Cfg("per", FALSE, 0, 8, 50, 0), Cfg("per", TRUE, 0, 8, 50, 0)}
   /\ \E f \in PStates(cf.ord) : st = [k \in DOMAIN f |-> PEntry(k, f[k])]
-  /\ chEx = TRUE /\ top = 0 /\ win = <<>> /\ ep = 1 /\ epc = 1
+  /\ chEx = TRUE /\ chOrd = cf.ord /\ top = 0 /\ win = <<>> /\ ep = 1 /\ epc = 1
   /\ expAt = 0 /\ expQ = 0 /\ remAt = 0 /\ remQ = 0
-  /\ idem = Empty /\ pend = <<>>
+  /\ idem = Empty /\ iq = {} /\ gidem = Empty /\ nkc = 0 /\ pend = <<>>
   /\ now = 0 /\ npub = 0 /\ nops = 0 /\ bc = <<>>
   /\ step = [act |-> "Init"]
   /\ tbl = Table
